@@ -1,7 +1,128 @@
-import Quanto.Spec.C04
+/-
+C04 — sub-byte packing (`pack_weights` / `unpack` / `PackedTensor`) is lossless, dense and
+identical across kernels and routes.  Helper lemmas live in `Proofs/C04/Lemmas.lean`.
+-/
+import Proofs.C04.Lemmas
 namespace Quanto
 
-/-- placeholder until the packing proofs land -/
-theorem C04_cpp_table_4 : Generated.cppUnpackTable 4 = [(15, 0), (240, 4)] := by decide
+/-! ### T1 — density -/
+
+/-- the payload has exactly `ceil(R * bits / 8)` rows and the original trailing dimensions -/
+theorem C04_dense (bits : Nat) (hb : bits = 2 ∨ bits = 4) (t : T Nat) :
+    (packWeights bits t).shape = ceilDiv (t.shape.headD 0 * bits) 8 :: t.shape.tail := by
+  rw [packWeights_shape, rowDim_eq_ceilDiv bits _ hb]
+
+/-- the payload holds exactly as many bytes as its shape says -/
+theorem C04_dense_size (bits : Nat) (t : T Nat) :
+    (packWeights bits t).data.size = prod (packWeights bits t).shape := by
+  unfold packWeights
+  simp only []
+  rw [T.size_ofFn, T.shape_ofFn]
+
+/-! ### T2 — one column survives pack + unpack, for every row count -/
+
+theorem C04_roundtrip_column (bits : Nat) (hb : bits = 2 ∨ bits = 4) :
+    ∀ R, R ≥ 1 → ∀ col : Nat → Nat, (∀ j, j < R → col j < 2 ^ bits) → ∀ j, j < R →
+      (packByte bits R col (j % rowDim bits R) &&& pyMask bits (j / rowDim bits R))
+        >>> (bits * (j / rowDim bits R)) = col j :=
+  fun R _ col h j hj => roundtrip_column bits hb R col h j hj
+
+/-- the loop bound `it = min(values_per_item, R // row_dim + 1)` of `pack_weights` reaches every row -/
+theorem C04_loop_bound_sufficient (bits : Nat) (hb : bits = 2 ∨ bits = 4) (R : Nat) :
+    R ≤ packIt bits R * rowDim bits R :=
+  packIt_mul_rowDim_ge bits R hb
+
+/-! ### T3 — whole tensor round trip through `PackedTensor` -/
+
+/-- `_hR` is part of the stated well-formedness contract; the proof does not need it
+(a tensor with zero rows is empty and round-trips trivially). -/
+theorem C04_roundtrip (bits : Nat) (hb : bits = 2 ∨ bits = 4) (t : T Nat)
+    (hne : t.shape ≠ []) (hwf : t.data.size = prod t.shape) (_hR : 1 ≤ t.shape.headD 0)
+    (hv : ∀ i, i < t.data.size → t.data[i]! < 2 ^ bits)
+    (extEnabled : Bool) (ext : ExtOutcome) :
+    (Packed.pack bits t).unpack extEnabled ext = t := by
+  unfold Packed.unpack Packed.pack
+  simp only []
+  rw [quantoUnpack_eq_unpackPy bits hb _ _ _ (packWeights_get_lt bits t)]
+  exact narrow_unpackPy_packWeights bits hb t hne hwf (get_lt_of_data bits t hv)
+
+/-! ### T4 / T5 — kernels and routes agree on every byte tensor -/
+
+theorem C04_kernels_agree (bits : Nat) (hb : bits = 2 ∨ bits = 4) :
+    ∀ p : T Nat, (∀ i, p.get i < 256) → unpackCpp bits p = unpackPy bits p :=
+  fun p hp => unpackCpp_eq_unpackPy bits hb p hp
+
+theorem C04_routes_agree (bits : Nat) (hb : bits = 2 ∨ bits = 4) :
+    ∀ (e : Bool) (x : ExtOutcome) (p : T Nat), (∀ i, p.get i < 256) →
+      quantoUnpack e x bits p = unpackPy bits p :=
+  fun e x p hp => quantoUnpack_eq_unpackPy bits hb e x p hp
+
+/-! ### T6 — `__torch_dispatch__` -/
+
+theorem C04_dispatch_other : ∀ (p : Packed) (f : T Nat → T Nat),
+    p.dispatch (.other f) = .plain (f p.unpack) :=
+  fun _ _ => rfl
+
+theorem C04_dispatch_detach : ∀ p : Packed, ∃ q,
+    p.dispatch .detach = .packed q ∧ q.unpack = p.unpack ∧ q.size = p.size ∧ q.bits = p.bits :=
+  fun p => ⟨⟨p.bits, p.size, p.data⟩, rfl, rfl, rfl, rfl⟩
+
+theorem C04_dispatch_move : ∀ p : Packed, ∃ q,
+    p.dispatch (.toCopy true) = .packed q ∧ q.unpack = p.unpack ∧ q.data = p.data :=
+  fun p => ⟨⟨p.bits, p.size, p.data⟩, rfl, rfl, rfl⟩
+
+theorem C04_dispatch_dtype_refused : ∀ p : Packed,
+    (match p.dispatch (.toCopy false) with | .valueError => True | _ => False) :=
+  fun _ => trivial
+
+/-! ### T7 — the executable predicate accepts the model's own outputs -/
+
+theorem C04_spec_ok (bits : Nat) (hb : bits = 2 ∨ bits = 4) (t : T Nat)
+    (hne : t.shape ≠ []) (hwf : t.data.size = prod t.shape) (hR : 1 ≤ t.shape.headD 0)
+    (hv : ∀ i, i < t.data.size → t.data[i]! < 2 ^ bits) :
+    specC04 bits t (packWeights bits t) ((Packed.pack bits t).unpack)
+      [unpackPy bits (packWeights bits t), unpackCpp bits (packWeights bits t),
+       quantoUnpack true .returns bits (packWeights bits t),
+       quantoUnpack false .returns bits (packWeights bits t)] = .ok := by
+  have hrt := C04_roundtrip bits hb t hne hwf hR hv true .raises
+  have hlt := packWeights_get_lt bits t
+  have hbits : (bits == 2 || bits == 4) = true := by rcases hb with rfl | rfl <;> rfl
+  have hwf' : t.wf = true := by simp [T.wf, hwf]
+  have hany : t.data.any (· ≥ 2 ^ bits) = false := by
+    rw [Array.any_eq_false]
+    intro i hi
+    have := hv i hi
+    rw [getElem!_pos t.data i hi] at this
+    simpa using this
+  have hemp : t.shape.isEmpty = false := by
+    cases h : t.shape with
+    | nil => exact absurd h hne
+    | cons a as => rfl
+  have hpwf : (packWeights bits t).wf = true := by simp [T.wf, C04_dense_size]
+  unfold specC04
+  rw [hrt, unpackCpp_eq_unpackPy bits hb _ hlt, quantoUnpack_eq_unpackPy bits hb _ _ _ hlt,
+    quantoUnpack_eq_unpackPy bits hb _ _ _ hlt]
+  simp [hbits, hwf', hany, hemp, hpwf, C04_dense bits hb t]
+
+/-! ### non-vacuity -/
+
+example : (Packed.pack 4 ⟨[3, 2], #[1, 2, 3, 4, 5, 6]⟩).unpack true .returns = ⟨[3, 2], #[1, 2, 3, 4, 5, 6]⟩ :=
+  C04_roundtrip 4 (Or.inr rfl) ⟨[3, 2], #[1, 2, 3, 4, 5, 6]⟩ (by decide) (by decide) (by decide)
+    (by decide) true .returns
+
+example : (Packed.pack 2 ⟨[5, 1], #[3, 0, 1, 2, 3]⟩).unpack false .raises = ⟨[5, 1], #[3, 0, 1, 2, 3]⟩ :=
+  C04_roundtrip 2 (Or.inl rfl) ⟨[5, 1], #[3, 0, 1, 2, 3]⟩ (by decide) (by decide) (by decide)
+    (by decide) false .raises
+
+example : specC04 4 ⟨[3, 2], #[1, 2, 3, 4, 5, 6]⟩ (packWeights 4 ⟨[3, 2], #[1, 2, 3, 4, 5, 6]⟩)
+    ((Packed.pack 4 ⟨[3, 2], #[1, 2, 3, 4, 5, 6]⟩).unpack)
+    [unpackPy 4 (packWeights 4 ⟨[3, 2], #[1, 2, 3, 4, 5, 6]⟩),
+     unpackCpp 4 (packWeights 4 ⟨[3, 2], #[1, 2, 3, 4, 5, 6]⟩),
+     quantoUnpack true .returns 4 (packWeights 4 ⟨[3, 2], #[1, 2, 3, 4, 5, 6]⟩),
+     quantoUnpack false .returns 4 (packWeights 4 ⟨[3, 2], #[1, 2, 3, 4, 5, 6]⟩)] = .ok :=
+  C04_spec_ok 4 (Or.inr rfl) ⟨[3, 2], #[1, 2, 3, 4, 5, 6]⟩ (by decide) (by decide) (by decide) (by decide)
+
+/-- the hypothesis of `C04_kernels_agree` / `C04_routes_agree` is met by every payload `pack_weights` produces -/
+example (bits : Nat) (t : T Nat) : ∀ i, (packWeights bits t).get i < 256 := packWeights_get_lt bits t
 
 end Quanto
